@@ -235,7 +235,7 @@ func (m *Machine) doAssert(label string, c *term.T) {
 		return
 	}
 	r.AssertsHit[label]++
-	if len(m.inputs) > 0 && m.onNontrivial != nil {
+	if (len(m.inputs) > 0 || len(m.choiceLog) > 0) && m.onNontrivial != nil {
 		m.onNontrivial()
 	}
 	if c.IsTrue() {
